@@ -2796,6 +2796,8 @@ mnemo_func = {'mov': mov,
               'popfw':popfw,
               'pushad':pushad,
               'popad':popad,
+              'pushaw':pushad,
+              'popaw':popad,
               'call':call,
               'ret':ret,
               'retf':retf,
@@ -2973,13 +2975,17 @@ mnemo_func = {'mov': mov,
               'fucom':fucom,
               'fucomp':fucomp,
               'fucompp':fucompp,
-              'ins':ins,
+              'insb':ins,
+              'insw':ins,
+              'insd':ins,
               'btc':btc,
               'bts':bts,
               'btr':btr,
               'into':into,
               'in':l_in,
-              'outs':l_outs,
+              'outsb':l_outs,
+              'outsw':l_outs,
+              'outsd':l_outs,
               'out':l_out,
               "sysenter":l_sysenter,
               "cmpxchg":cmpxchg,
